@@ -124,6 +124,10 @@ fn run_case(line: &str) -> String {
     let (txfd, rxfd) = (tx.as_raw_fd(), rx.as_raw_fd());
     set_nonblock(txfd, nb_before);
     set_nonblock(rxfd, nb_before);
+    // duplicates of both ends, kept to the end of the case: O_NONBLOCK lives on the open file description, so they show whether
+    // a plain drop of the adapter restored the blocking mode (the adapted fd itself is closed by then)
+    let tx_dup = tx.try_clone().expect("dup tx");
+    let rx_dup = rx.try_clone().expect("dup rx");
     let payload: Vec<u8> = (0..len).map(|i| (i * 31 + 7) as u8).collect();
     let mut txa = handle.adapt_io(tx).expect("adapt tx");
     let mut rxa = handle.adapt_io(rx).expect("adapt rx");
@@ -200,9 +204,12 @@ fn run_case(line: &str) -> String {
     }
     let finished = received.borrow().is_some() && written.borrow().is_some();
     let bytes_ok = received.borrow().as_ref().map(|g| *g == payload).unwrap_or(false);
-    // blocking mode restored (only observable when the fd is still open: into_inner)
+    // blocking mode restored: after into_inner on the fd itself, after a plain drop through the duplicates (only once both tasks
+    // have finished, i.e. both adapters are gone)
     let flags_ok = if end_inner {
         nonblock(txfd) == nb_before && nonblock(rxfd) == nb_before
+    } else if finished {
+        nonblock(tx_dup.as_raw_fd()) == nb_before && nonblock(rx_dup.as_raw_fd()) == nb_before
     } else {
         true
     };
